@@ -208,7 +208,11 @@ class TranslateNode(Node, TranslatableTag):
 
     def block_scope(self) -> Iterable[Identifier]:
         """Return variables this node adds to the node's block scope."""
-        yield from (Identifier(p.name, token=p.token) for p in self.args.values())
+        yield from (
+            Identifier(p.name, token=p.token)
+            for p in self.args.values()
+            if p.name != self.message_context_var
+        )
 
     def expressions(self) -> Iterable[Expression]:
         """Return this node's expressions."""
